@@ -718,6 +718,10 @@ func c03Run(c *verifeng.Chooser, f *c03fix, env *verifhfs.Env, depth, npeers int
 				lbl += "{" + m.name + "}"
 			}
 		}
+		// Stop at this very point (as ChainService.Stop does it: nobody
+		// reads the notification channel any more, pending queries end):
+		// the deferred drainUntilStopped judges whether it returns.
+		menu = append(menu, ev{"Stop", func() bool { return false }})
 		e := menu[c.ChooseFree(len(menu), lbl)]
 		c.Step("%s", e.name)
 		if !e.run() {
@@ -833,14 +837,12 @@ func (h *c03h) drainUntilStopped() {
 			h.pending = nil
 			close(q.done)
 		}
-		select {
-		case <-h.bm.Notifications():
-		default:
-			time.Sleep(50 * time.Millisecond)
-		}
+		// Nobody reads the notification channel any more: in the client
+		// the subscription manager is stopped before the block manager.
+		time.Sleep(50 * time.Millisecond)
 	}
 	if !tk.Done() {
-		h.c.Fail("stop", "blockmanager-stop-blocks", "blockManager.Stop has not returned after 10 virtual seconds with all queries released")
+		h.c.Fail("stop", "blockmanager-stop-blocks", "blockManager.Stop has not returned after 10 virtual seconds with all queries released and nobody reading the notification channel (as after SubscriptionManager.Stop)")
 	}
 }
 
